@@ -269,8 +269,17 @@ class BatchDriver:
 
     def flush(self):
         uniq = list(dict.fromkeys(self.cmds))
-        res = common.run_driver(self.exe, uniq) if uniq else []
-        self.out = dict(zip(uniq, res))
+        if os.environ.get("VERIF_C04_DUMP"):
+            open(os.environ["VERIF_C04_DUMP"], "w").write("\n".join(uniq) + "\n")
+        # the commands are independent and the driver is stateless: run WORKERS copies (cost ~ command length)
+        order = sorted(range(len(uniq)), key=lambda k: -len(uniq[k]))
+        parts = [[uniq[k] for k in order[w::WORKERS]] for w in range(WORKERS)]
+        parts = [p for p in parts if p]
+        self.out = {}
+        if parts:
+            with cf.ThreadPoolExecutor(len(parts)) as ex:
+                for p, res in zip(parts, ex.map(lambda p: common.run_driver(self.exe, p), parts)):
+                    self.out.update(zip(p, res))
         self.collecting = False
 
 
@@ -352,25 +361,10 @@ def main():
                 else:
                     truth_val = truth["overlap"]
                     c.hist("pair:truth:" + ("overlap" if truth_val else "disjoint"))
-            c.count((case["a"], case["b"]), nontrivial=truth_val is not None)
-            if truth_val is not None:
-                c.cov["traces_validated_against_impl"] += 1
-                for key in ("obj_intersects", "obj_intersects_rev", "vol_intersects", "vol_intersects_rev"):
-                    if r[key] != truth_val:
-                        c.violation("overlap", f"{key} disagrees with certified exact geometry",
-                                    dict(case=case, query=key, impl=r[key], truth=truth_val, margin=truth["certs"][0].get("margin"), guest_pos=r.get("guest_pos"), oracles=r.get("oracles")))
-                md = r["min_dist"]
-                if truth_val and md > 0:
-                    c.violation("min-distance", "positive minimum distance reported for overlapping objects", dict(case=case, impl=md))
-                if not truth_val and "gap" in r and r["gap"][1] - r["gap"][0] < 1e-7:
-                    c.hist("pair:gap-certified")
-                    if abs(md - r["gap"][1]) > 1e-6:
-                        c.violation("min-distance", "minimum distance differs from the certified gap", dict(case=case, impl=md, gap=r["gap"]))
-                elif not truth_val and md <= 0:
-                    c.violation("min-distance", "non-positive minimum distance reported for disjoint objects", dict(case=case, impl=md))
             # nested family: the guest lies strictly inside one convex piece of the host (certificate inside_clear, checked
             # exactly): it overlaps the host (also certified by the common point above) and the host's region contains it
             nc = r.get("nested_cert")
+            okc = False
             if nc is not None and nc["slack"] > 4e-6:
                 m = nc["slack"] / 2
                 okc = drv([f"INC {hx(m)} {hx(m / 4)} {Hs(dict(n=nc['n'], d=nc['d']))} {V(nc['verts'])}"])[0] == "1" and truth_val is not None
@@ -384,6 +378,25 @@ def main():
             if case.get("nested") == "in-cavity" and truth_val is False and r.get("host_contains_guest"):
                 c.violation("containment", "containsObject of the host's occupiedSpace accepts a guest certified disjoint from it (inside its cavity)",
                             dict(case=case, guest_pos=r.get("guest_pos")))
+            c.count((case["a"], case["b"]), nontrivial=truth_val is not None)
+            if truth_val is not None:
+                c.cov["traces_validated_against_impl"] += 1
+                for key in ("obj_intersects", "obj_intersects_rev", "vol_intersects", "vol_intersects_rev"):
+                    if r[key] != truth_val:
+                        c.violation("overlap", f"{key} disagrees with certified exact geometry",
+                                    dict(case=case, query=key, impl=r[key], truth=truth_val, margin=truth["certs"][0].get("margin"), guest_pos=r.get("guest_pos"), oracles=r.get("oracles")))
+                md = r["min_dist"]
+                if truth_val and md > 0:
+                    oo = r.get("oracles") or {}
+                    c.violation("min-distance", "positive minimum distance reported for overlapping objects",
+                                dict(case=case, impl=md, sub="positive-for-overlapping", nested_clear=bool(okc), guest_pos=r.get("guest_pos"),
+                                     some_nonconvex=not (oo.get("a_convex", True) and oo.get("b_convex", True)), surf_collide=oo.get("surf_collide")))
+                if not truth_val and "gap" in r and r["gap"][1] - r["gap"][0] < 1e-7:
+                    c.hist("pair:gap-certified")
+                    if abs(md - r["gap"][1]) > 1e-6:
+                        c.violation("min-distance", "minimum distance differs from the certified gap", dict(case=case, impl=md, gap=r["gap"]))
+                elif not truth_val and md <= 0:
+                    c.violation("min-distance", "non-positive minimum distance reported for disjoint objects", dict(case=case, impl=md))
             # cascade model vs implementation, and every shortcut vs truth / last pass
             o = r.get("oracles")
             if o is None:
